@@ -356,6 +356,9 @@ func (m *Model) observeUps(ctx *StepCtx) {
 		if prev != nil && string(prev.B) == string(o.B) {
 			last := prev.Sends[len(prev.Sends)-1]
 			prev.Sends = append(prev.Sends, o.At)
+			if o.Err {
+				prev.ErrSends++
+			}
 			s.probe("tx.retransmit", 1)
 			if prev.Answered {
 				s.violate("C09", "tx.stop-on-response", "tx:retransmit-after-response",
@@ -376,6 +379,9 @@ func (m *Model) observeUps(ctx *StepCtx) {
 				"new request to %s reuses sequence number %d of a request still outstanding", o.Dst, pm.Seq)
 		}
 		u := &UpReq{N: len(m.ups), Dst: o.Dst, Seq: pm.Seq, CPSEID: pm.SEID, B: o.B, Sends: []time.Duration{o.At}, Msg: pm, SMF: -1}
+		if o.Err {
+			u.ErrSends++
+		}
 		for _, f := range s.smfs {
 			if f.Rep.String() == o.Dst {
 				u.SMF = f.Idx
